@@ -14,6 +14,7 @@ import (
 	"fmt"
 	"os"
 	"path/filepath"
+	"runtime/debug"
 	"sort"
 	"strings"
 	"sync"
@@ -34,6 +35,7 @@ import (
 	"massnet.org/mass/mining"
 	"massnet.org/mass/poc/engine"
 	"massnet.org/mass/poc/engine/massdb"
+	massdb_v1 "massnet.org/mass/poc/engine/massdb/massdb.v1"
 	"massnet.org/mass/poc/engine/spacekeeper/capacity"
 
 	"verifharness/vh"
@@ -56,13 +58,22 @@ type fakeDB struct {
 	doneCh    chan struct{}
 	reg       *registry
 	plotCalls int
+	// opt realdb: the real massdb.v1 engine (a table of innerBL bits behind the configured name) does the plotting,
+	// stopping, progress, proofs and deletion; the scripted part only decides when a plot may go on
+	inner     *massdb_v1.MassDBV1
+	release   func()
+	stopsSeen int
 }
 
+const innerBL = 10
+
 type registry struct {
-	mu      sync.Mutex
-	dbs     map[string]*fakeDB
-	preplot map[int64]bool // ordinal -> created already plotted
-	inplot  chan *fakeDB   // Plot() announces itself here (a park point of the plotter goroutine)
+	mu        sync.Mutex
+	dbs       map[string]*fakeDB
+	preplot   map[int64]bool // ordinal -> created already plotted
+	inplot    chan *fakeDB   // Plot() announces itself here (a park point of the plotter goroutine)
+	real      bool
+	holdStops int // opt realdb: the held first window of a plot is released by this many StopPlot calls (0/1: the first)
 }
 
 func key(dir string, ord int64, pk *pocec.PublicKey, bl int) string {
@@ -104,6 +115,19 @@ func (r *registry) create(args ...interface{}) (massdb.MassDB, error) {
 	r.mu.Lock()
 	defer r.mu.Unlock()
 	d := &fakeDB{dir: dir, ordinal: ord, pk: pk, bl: bl, reg: r}
+	if r.real {
+		in, err := massdb_v1.NewMassDBV1(dir, ord, pk, innerBL)
+		if err != nil {
+			return nil, err
+		}
+		d.inner = in
+		if r.preplot[ord] {
+			massdb_v1.VerifMemFn = nil
+			if err := <-in.Plot(); err != nil {
+				return nil, err
+			}
+		}
+	}
 	if r.preplot[ord] {
 		d.plotted, d.progress = true, 100
 	}
@@ -111,16 +135,29 @@ func (r *registry) create(args ...interface{}) (massdb.MassDB, error) {
 	return d, nil
 }
 
-func (d *fakeDB) Type() string             { return "massdb.v1" }
-func (d *fakeDB) Close() error             { <-d.StopPlot(); return nil }
-func (d *fakeDB) Ready() bool              { d.mu.Lock(); defer d.mu.Unlock(); return d.plotted }
+func (d *fakeDB) Type() string { return "massdb.v1" }
+func (d *fakeDB) Close() error { <-d.StopPlot(); return nil }
+func (d *fakeDB) Ready() bool {
+	if d.inner != nil {
+		return d.inner.Ready()
+	}
+	d.mu.Lock()
+	defer d.mu.Unlock()
+	return d.plotted
+}
 func (d *fakeDB) BitLength() int           { return d.bl }
 func (d *fakeDB) PubKeyHash() pocutil.Hash { return pocutil.PubKeyHash(d.pk) }
 func (d *fakeDB) PubKey() *pocec.PublicKey { return d.pk }
 func (d *fakeDB) GetProof(challenge pocutil.Hash, filter bool) (*poc.DefaultProof, error) {
+	if d.inner != nil {
+		return d.inner.GetProof(challenge, filter)
+	}
 	return nil, errors.New("scripted backend has no proofs")
 }
 func (d *fakeDB) Progress() (bool, bool, float64) {
+	if d.inner != nil {
+		return d.inner.Progress()
+	}
 	d.mu.Lock()
 	defer d.mu.Unlock()
 	return d.progress >= 50, d.plotted, d.progress
@@ -146,6 +183,10 @@ func (d *fakeDB) Plot() chan error {
 	d.finishCh, d.stopCh, d.doneCh = make(chan string, 1), make(chan struct{}), make(chan struct{})
 	fin, stop, done := d.finishCh, d.stopCh, d.doneCh
 	d.mu.Unlock()
+	if d.inner != nil {
+		go d.realPlot(fin, stop, done, res)
+		return res
+	}
 	go func() {
 		d.reg.inplot <- d
 		out := "aborted"
@@ -167,9 +208,86 @@ func (d *fakeDB) Plot() chan error {
 	return res
 }
 
+// realPlot: the real engine plots; its first window is held (memory hook) until the scenario lets the plot go on or
+// a stop arrives, and every pass is cut into eight windows so that a stop finds a window boundary.  Stops go to the
+// engine's own StopPlot, every one of them (see StopPlot below).
+func (d *fakeDB) realPlot(fin chan string, stop, done chan struct{}, res chan error) {
+	release := make(chan struct{})
+	var once sync.Once
+	d.mu.Lock()
+	d.release = func() { once.Do(func() { close(release) }) }
+	d.stopsSeen = 0
+	d.mu.Unlock()
+	calls := 0
+	massdb_v1.VerifMemFn = func(required uint64) uint64 {
+		calls++
+		if calls == 1 {
+			d.reg.inplot <- d
+			<-release
+		}
+		rs := uint64(pocutil.RecordSize(innerBL))
+		n := uint64(1) << uint(innerBL)
+		m := rs * n / 8
+		if pre, _, _ := d.inner.Progress(); pre {
+			m = rs * 4 * (n / 2) / 8
+		}
+		if m == 0 || m > required {
+			m = required
+		}
+		return m
+	}
+	realRes := d.inner.Plot()
+	var err error
+	select {
+	case <-fin:
+		// the scenario lets the plot run to its end (a real plot does not end early on its own: PlotEnd(aborted)
+		// steps are skipped with this backend)
+		d.release()
+		err = <-realRes
+	case err = <-realRes:
+		// ended by a stop (StopPlot released the window), or before its first window
+	}
+	massdb_v1.VerifMemFn = nil
+	_, plotted, prog := d.inner.Progress()
+	d.mu.Lock()
+	d.plotted, d.progress = plotted, prog
+	d.plotting = false
+	d.release = nil
+	d.mu.Unlock()
+	close(done)
+	res <- err
+}
+
 func (d *fakeDB) StopPlot() chan error {
 	res := make(chan error, 1)
 	d.mu.Lock()
+	if d.inner != nil {
+		// the real engine's StopPlot, called as often as the keeper calls it; the held window is let go once the
+		// stops the schedule expects have been issued (default: the first)
+		d.stopsSeen++
+		if os.Getenv("VH_DEBUG_STOP") != "" {
+			fmt.Fprintf(os.Stderr, "STOPPLOT #%d\n%s\n", d.stopsSeen, debug.Stack())
+		}
+		rel, want := d.release, d.reg.holdStops
+		seen := d.stopsSeen
+		var done chan struct{}
+		if d.plotting {
+			done = d.doneCh
+		}
+		d.mu.Unlock()
+		r := d.inner.StopPlot()
+		if rel != nil && seen >= want {
+			rel()
+		}
+		go func() {
+			e := <-r
+			if done != nil {
+				<-done // the scripted part has seen the plot end too
+			}
+			res <- e
+		}()
+		return res
+	}
 	if !d.plotting {
 		d.mu.Unlock()
 		res <- nil
@@ -196,9 +314,21 @@ func (d *fakeDB) Delete() chan error {
 		res <- errors.New("already plotting")
 		return res
 	}
+	if d.inner != nil {
+		if err := <-d.inner.Delete(); err != nil {
+			res <- err
+			return res
+		}
+	}
 	d.deleted = true
 	res <- nil
 	return res
+}
+
+// filesExist (opt realdb): some table file of this space is on disk
+func (d *fakeDB) filesExist() bool {
+	m, _ := filepath.Glob(filepath.Join(d.dir, fmt.Sprintf("%d_%x_%d*.massdb", d.ordinal, d.pk.SerializeCompressed(), innerBL)))
+	return len(m) > 0
 }
 
 // ------------------------------------------------------------------ scripted wallet
@@ -577,6 +707,9 @@ func (d *drv) project(ev vh.Event) {
 		db.mu.Lock()
 		files[w] = !db.deleted
 		db.mu.Unlock()
+		if db.inner != nil {
+			files[w] = db.filesExist()
+		}
 	}
 	ev["files"] = files
 	ev["running"] = d.sk.Started()
@@ -609,6 +742,7 @@ func run(sc vh.Scenario, dir string, rec *vh.Rec) {
 		n = int(v)
 	}
 	reg := &registry{dbs: map[string]*fakeDB{}, preplot: map[int64]bool{}, inplot: make(chan *fakeDB, 4)}
+	reg.real, _ = sc.Opt["realdb"].(bool)
 	init, _ := sc.Opt["init"].(map[string]interface{})
 	for i := 0; i < n; i++ {
 		if s, _ := init[fmt.Sprintf("w%d", i+1)].(string); s == "ready" {
@@ -669,6 +803,10 @@ func run(sc vh.Scenario, dir string, rec *vh.Rec) {
 		d.startStopStart(rec)
 		rec.DoneAndExit(9)
 	}
+	if mode, _ := sc.Opt["mode"].(string); mode == "stopstop" {
+		d.stopStop(rec)
+		rec.DoneAndExit(9)
+	}
 	if mode, _ := sc.Opt["mode"].(string); mode == "conc" {
 		d.concurrent(sc, rec, rng)
 		rec.DoneAndExit(9)
@@ -689,7 +827,7 @@ func run(sc vh.Scenario, dir string, rec *vh.Rec) {
 				continue // it would block in its select until a request arrives: nothing to observe
 			}
 		case "PlotEnd":
-			if d.at != "inplot" {
+			if d.at != "inplot" || (reg.real && st.Str("out") != "complete") {
 				continue
 			}
 		case "Start":
@@ -981,7 +1119,7 @@ func run(sc vh.Scenario, dir string, rec *vh.Rec) {
 		t := time.After(3 * time.Second)
 	down:
 		for d.at != "exited" {
-			if d.at == "inplot" {
+			if d.at == "inplot" && !reg.real {
 				select {
 				case d.cur.finishCh <- "aborted":
 				default:
@@ -1001,6 +1139,63 @@ func run(sc vh.Scenario, dir string, rec *vh.Rec) {
 			}
 		}
 	}
+}
+
+// stopStop (opt realdb): a space is being plotted by the real engine; StopWS of that space and a stop of the keeper
+// arrive together.  The keeper asks the engine to stop the plot on both paths (StopWS under the state lock, the
+// plotter's monitor on the quit signal): both must return and nothing may panic.  The plot's held window is released
+// only when both requests have reached the engine, so that the second meets a plot that has not ended yet.
+func (d *drv) stopStop(rec *vh.Rec) {
+	sk, g := d.sk, d.g
+	ev := vh.Event{"step": 1, "a": "StopStop"}
+	rec.Begin(ev)
+	g.mu.Lock()
+	g.free = true
+	g.mu.Unlock()
+	if r, _ := call(func() error { return sk.ActOnWorkSpace(d.sids["w1"], engine.Plot) }); r != "ok" {
+		ev["res"] = "plot-" + r
+		rec.Emit(ev)
+		return
+	}
+	sk.Start()
+	select {
+	case db := <-d.reg.inplot:
+		d.cur = db
+	case <-time.After(callTimeout):
+		ev["res"] = "no-plot"
+		rec.Emit(ev)
+		return
+	}
+	d.reg.holdStops = 2
+	a, b := make(chan string, 1), make(chan string, 1)
+	go func() { r, _ := call(func() error { return sk.ActOnWorkSpace(d.sids["w1"], engine.Stop) }); a <- r }()
+	time.Sleep(20 * time.Millisecond)
+	go func() { r, _ := call(func() error { return sk.Stop() }); b <- r }()
+	// if only one request reaches the engine the window is let go after a while (nothing to race with then)
+	go func() {
+		time.Sleep(1500 * time.Millisecond)
+		d.cur.mu.Lock()
+		rel := d.cur.release
+		d.cur.mu.Unlock()
+		if rel != nil {
+			rel()
+		}
+	}()
+	ev["stop_space"], ev["stop_keeper"] = <-a, <-b
+	d.cur.mu.Lock()
+	ev["stops_at_engine"] = d.cur.stopsSeen
+	d.cur.mu.Unlock()
+	pe := vh.Event{}
+	done := make(chan struct{})
+	go func() { defer close(done); d.project(pe) }()
+	select {
+	case <-done:
+		ev["st"] = pe["st"]
+		ev["res"] = "ok"
+	case <-time.After(callTimeout):
+		ev["res"] = "hang"
+	}
+	rec.Emit(ev)
 }
 
 // startStopStart: the keeper is stopped before its freshly spawned plotter goroutine has run a single instruction, and
